@@ -594,4 +594,5 @@ pub fn check() -> Check {
     .pbt(Rejects)
     .pbt(crate::c10ext::MultiRoundTrip)
     .pbt(crate::c10ext::BoundarySizes)
+    .pbt(crate::c10ext::BoundaryCounts)
 }
